@@ -20,12 +20,15 @@ MEMBER_NAMES = {v: k for k, v in MEMBERS.items()}
 
 CONFIGS = [
     {"name": "default", "hb_ms": 5000, "initial_ms": 1000, "retry_ms": 100, "fatal_ms": 10000},
+    # the consumer of partition 0 fails its shutdown() by raising synchronously (added after seeded change C16-m5)
+    {"name": "shutdown-raises", "hb_ms": 5000, "initial_ms": 1000, "retry_ms": 100, "fatal_ms": 10000, "sync_raise": [0]},
 ]
 
 
 def cfg_constants(cfg):
     return [], ["  InitialBackoff = %d" % (cfg["initial_ms"] * 1000), "  RetryBackoff = %d" % (cfg["retry_ms"] * 1000),
-                "  FatalBackoff = %d" % (cfg["fatal_ms"] * 1000)]
+                "  FatalBackoff = %d" % (cfg["fatal_ms"] * 1000),
+                "  SyncRaise = {%s}" % ", ".join(str(p) for p in cfg.get("sync_raise", []))]
 
 
 def mk_failure(kind):
@@ -63,6 +66,8 @@ class FakeConsumer:
         self.fam.act(["cshut", self.partition])
         if self._start_d is None:
             return defer.fail(RestopError("not running"))
+        if self.partition in self.fam.cfg.get("sync_raise", ()):
+            raise RuntimeError("scripted: shutdown() raises")
         self._shutdown_d = defer.Deferred()
         return self._shutdown_d
 
